@@ -228,3 +228,38 @@ pub fn add_signed_mul_same_len(
         toom_3::add_signed_mul_same_len(c, sign, a, b, memory)
     }
 }
+
+/// Kernel entry points for verification harnesses.
+#[cfg(dashu_verif)]
+pub(crate) mod verif {
+    use super::*;
+
+    /// Scratch memory for kernel `which` (1 = schoolbook, 2 = Karatsuba, 3 = Toom-3).
+    pub fn memory_requirement(which: u8, smaller_len: usize) -> Layout {
+        match which {
+            1 => memory::zero_layout(),
+            2 => karatsuba::memory_requirement_up_to(smaller_len),
+            _ => toom_3::memory_requirement_up_to(smaller_len),
+        }
+    }
+
+    /// `c += sign * a * b` through kernel `which`.
+    pub fn add_signed_mul(
+        which: u8,
+        c: &mut [Word],
+        sign: Sign,
+        a: &[Word],
+        b: &[Word],
+        memory: &mut Memory,
+    ) -> SignedWord {
+        match which {
+            1 => simple::add_signed_mul(c, sign, a, b, memory),
+            2 => karatsuba::add_signed_mul(c, sign, a, b, memory),
+            _ => toom_3::add_signed_mul(c, sign, a, b, memory),
+        }
+    }
+
+    /// (THRESHOLD_SIMPLE, THRESHOLD_KARATSUBA, karatsuba::MIN_LEN, toom_3::MIN_LEN)
+    pub const PARAMS: (usize, usize, usize, usize) =
+        (THRESHOLD_SIMPLE, THRESHOLD_KARATSUBA, karatsuba::MIN_LEN, toom_3::MIN_LEN);
+}
